@@ -10,6 +10,7 @@ import argparse
 import json
 import os
 import re
+import shutil
 import sys
 import time
 
@@ -116,6 +117,26 @@ def main():
                     f.write(kout)
                 if any(r.get("errors") for r in kres.values()):
                     log("\n".join(l for l in kout.splitlines() if l.startswith("error"))[:3000])
+                    if len(k_units) > 1 and all(r.get("errors") is not None and r["status"] == "undecided" for r in kres.values()):
+                        # the combined build failed to compile: one unit's private access may have been broken by a
+                        # change in /repo. Do not let that blind the other units: build and run each unit alone.
+                        log("combined build failed; falling back to one build per unit")
+                        for u in k_units:
+                            u_obls = [o for o in k_obls if o.unit is u]
+                            sub = os.path.join(scratch, "unit-" + u.name)
+                            os.makedirs(sub, exist_ok=True)
+                            try:
+                                kanirun.prepare(sub, [u])
+                                ures, ucmd, uout = kanirun.run_harnesses(sub, u_obls, jobs=args.jobs, harness_timeout=ht)
+                                cmds.append(ucmd)
+                                for rr in ures.values():
+                                    rr["scratch"] = sub      # counterexample / replay runs use this unit's own build
+                                results.update(ures)
+                            except kanirun.KaniError as e:
+                                for o in u_obls:
+                                    results[o.id] = dict(status="undecided", reason=str(e), failed=[], undecided=[],
+                                                         n_checks=0, solver_s=0.0, wall_s=0.0)
+                            _ = shutil
             except kanirun.KaniError as e:
                 for o in k_obls:
                     results[o.id] = dict(status="undecided", reason=str(e), failed=[], undecided=[], n_checks=0,
@@ -170,6 +191,7 @@ def main():
 
 
 def build_replay(scratch, prop, o, r, raw, args):
+    scratch = r.get("scratch") or scratch
     os.makedirs(REPLAY_DIR, exist_ok=True)
     path = os.path.join(REPLAY_DIR, "%s-%s.json" % (prop, re.sub(r"[^\w.-]", "_", o.id)))
     rp = dict(property=prop, obligation=o.id, backend=o.backend, unit=o.unit.name, harness=o.harness,
